@@ -421,10 +421,12 @@ func (e *Emitter) Flush(perSig int) {
 }
 
 const (
-	rule = "case = (d,p) x blob size x set of damaged shard files x damage kind per shard [x repair flag], or (d,p) x size x set of failing shard writes x failure mode. " +
-		"Enumerated: every subset of at most p+1 shards x every kind assignment from {missing, short(<17B), empty(=17B), truncated, corrupt(data bit), badsum(md5 bit), badpad(pad-count bit)} " +
-		"where that product fits the per-group budget, else every subset x every uniform assignment + seed-sampled mixed assignments (closed under sub-damage); " +
-		"a single-shard sweep over truncation lengths, header bits and data bits for every shard index and size; every subset of failing shard writes (all sizes 0..d+p) x {WriteFile fails, MkdirAll fails}. " +
+	rule = "case = (d,p) in {1..4}x{1..3} x blob size x set of damaged shard files x damage kind per shard [x repair flag], or (d,p) x size x set of failing shard writes x failure mode. " +
+		"Enumerated per (d,p,size): a single-shard sweep for every shard index (missing; truncation lengths incl. 0, inside the 17-byte header, exactly 17, partial; one byte appended; pad-byte bits; md5 bits; data bits); " +
+		"every subset of at most p+1 shards x every assignment of {missing, empty(=17B), truncated, corrupt(data bit), badsum(md5 bit), badpad(pad-count bit)} where that product fits the per-group budget, " +
+		"else every subset x every uniform assignment + every ordered kind pair on three fixed shard pairs + seed-sampled mixed assignments (closed under sub-damage); other sizes: every subset x uniform kinds; " +
+		"header cuts (<17B, they kill the reader on the unchanged library) in the sweep, in uniform subsets and in the full mixed product of small (d,p) only; a strided subset of the same reads with repair on; " +
+		"every subset (sizes 0..d+p) of failing shard writes x {WriteFile fails, MkdirAll fails} (quick: MkdirAll mode at p and p+1 failures only). " +
 		"Distinct class = family:(d,p):size class:repair flag:relation of damage count to p:kind set (read) or family:(d,p):size class:mode:failure count (write). " +
 		"Non-trivial = at least one shard file really changed on disk (resp. at least one injected write failure really returned) and the case produced a verdict."
 )
@@ -450,7 +452,7 @@ func Run(r *report.Run) int {
 	r.Set("phase_seconds", map[string]float64{"generate": t1.Sub(t0).Seconds(), "execute": t2.Sub(t1).Seconds(), "judge": time.Since(t2).Seconds()})
 	r.Set("product_complete_for_every_group", complete)
 	// exhaustive stays false: bit positions and truncation lengths are representatives, and large groups are sampled.
-	return r.Finish(rule, assumptions, r.Pick(150, 300))
+	return r.Finish(rule, assumptions, r.Pick(900, 2000))
 }
 
 func allCutLens() []int {
